@@ -458,3 +458,20 @@ def check_frac(s, n, tok, out):
         return None
     P0, Q0 = conv(terms[:nn])
     return None if (p, q) == (P0, Q0) else "expected convergent %d/%d" % (P0, Q0)
+
+
+# --------------------------------------------------------------------------- lines that were not executed
+def _skip_guard(f):
+    """`SKIP` is the supervisor's answer for a line it did not execute (the rest of a chunk after six aborts / hangs):
+    there is no output to judge"""
+    def g(*a, **k):
+        if any(isinstance(x, str) and x == "SKIP" for x in a):
+            return None
+        return f(*a, **k)
+    g.__name__ = f.__name__
+    g.__doc__ = f.__doc__
+    return g
+
+
+for _n in [n for n in list(globals()) if n.startswith("check_")]:
+    globals()[_n] = _skip_guard(globals()[_n])
